@@ -196,7 +196,10 @@ def compare(ctx, t, rows, build, stats):
 
     def bad(key, text, data):
         stats["bad"] += 1
-        ctx.violation(key, text, data)
+        seen = stats.setdefault("keys", {})
+        seen[key] = seen.get(key, 0) + 1
+        if seen[key] == 1:                      # one report per structural class; the count goes to the evidence
+            ctx.violation(key, text, data)
 
     for r in rows:
         op = r["op"]
@@ -295,7 +298,8 @@ def compare(ctx, t, rows, build, stats):
     return cnt
 
 
-BUILDS = {"asanrel": ("asanrel", []), "asanrel-w32": ("asanrel", ["-DBEE2_VERIF_W32"])}
+# assert-enabled ASan builds, 64- and 32-bit words: an internal precondition tripped by an admissible input aborts
+BUILDS = {"asan": ("asan", []), "asan-w32": ("asanw32", [])}
 
 
 def read_rows(path):
@@ -321,8 +325,7 @@ def run_curve(ctx, t, build, tier, stats, drv):
     if rc != 0:
         site = crash_site(err)
         overflow = "heap-buffer-overflow" in err
-        ctx.violation("crash:%s:%s:n=%d:%s" % ("stack-overflow" if overflow else "abort", site, (t.no * 8 + (31 if build.endswith("w32") else 63)) // (32 if build.endswith("w32") else 64),
-                                            "W32" if build.endswith("w32") else "W64"),
+        ctx.violation("crash:%s:%s" % ("stack-overflow" if overflow else "abort", site),
                       "drv_ec stopped inside the library on curve %s (%s build, rc=%d) after %d rows, %s: %s"
                       % (t.name, build, rc, len(rows), "a stack of exactly the documented depth was overrun" if overflow else "abort", err[-1500:]),
                       {"curve": t.name, "stderr": err[-6000:], "last_row": rows[-1] if rows else None})
@@ -330,7 +333,7 @@ def run_curve(ctx, t, build, tier, stats, drv):
         rc, _, err = vlib.run_harness(drv, ["exec"], stdin=cmds.encode(), out_path=outp, env=env, timeout=3000)
         rows = read_rows(outp)
         if rc != 0:
-            ctx.violation("crash:%s:%s:curve=%s" % (build, crash_site(err), t.name), "drv_ec stopped inside the library on curve %s (%s build, stacks with slack, rc=%d): %s"
+            ctx.violation("crash:abort:%s" % crash_site(err), "drv_ec stopped inside the library on curve %s (%s build, stacks with slack, rc=%d): %s"
                           % (t.name, build, rc, err[-1500:]), {"stderr": err[-6000:]})
     return rows
 
@@ -340,9 +343,9 @@ def crash_site(err):
     fr = [f for f in fr if f[0] not in ("wwCopy", "wwSetZero", "memCopy", "memSet")]
     if fr:
         return "%s@%s" % (fr[0][0], fr[0][1])
-    m = re.search(r"(\w+\.c):(\d+): (\w+): Assertion", err)
+    m = re.search(r"Assertion in \S*?/src/([\w/\.]+)::(\d+)", err)
     if m:
-        return "assert@%s:%s" % (m.group(1), m.group(3))
+        return "assert@%s:%s" % (m.group(1), m.group(2))
     return "unknown"
 
 
@@ -428,7 +431,7 @@ def run(ctx):
         jobs.append((name, {"GEN_KIND": "int", "GEN_P": p, "GEN_A": A, "GEN_B": B, "GEN_BITS": bits_of(p)}))
     for (name, pr, N, a3) in bigs:
         jobs.append((name, {"GEN_KIND": "big", "GEN_PHEX": BIGP[pr], "GEN_N": N, "GEN_A3": a3, "GEN_T": 2}))
-    fns = [lambda: oracle(ctx, tier), lambda: record(ctx, tier, drvs["asanrel"])]
+    fns = [lambda: oracle(ctx, tier), lambda: record(ctx, tier, drvs["asan"])]
     fns += [(lambda j=j: gen_tables(ctx, j[0], j[1], workers=2 if ctx.quick else 4)) for j in jobs]
     res = vlib.parallel(fns, n=10 if ctx.quick else 5)
     (ro, obad, ocur), rec, res = res[0], res[1], res[2:]
@@ -484,11 +487,10 @@ def run(ctx):
     trans += r.generated + r2.generated
     if crash:
         site = crash_site(crash[1])
-        last = rows and read_rows(ctx.path("record.ndjson"))[-1] or {}
-        ctx.violation("crash:%s:%s:n=%d:W64" % ("stack-overflow" if "heap-buffer-overflow" in crash[1] else "abort", site, (len(rows[-1]["p"]) * 2 + 7) // 8 if rows else 0),
+        ctx.violation("crash:%s:%s" % ("stack-overflow" if "heap-buffer-overflow" in crash[1] else "abort", site),
                       "drv_ec record stopped inside the library with exact-size stacks (rc=%d): %s" % (crash[0], crash[1][-1500:]), crash[1][-6000:])
     if rc2 != 0:
-        ctx.violation("crash:record:%s" % crash_site(err2), "drv_ec record stopped inside the library (stacks with slack, rc=%d): %s" % (rc2, err2[-1500:]), err2[-6000:])
+        ctx.violation("crash:abort:%s" % crash_site(err2), "drv_ec record stopped inside the library (stacks with slack, rc=%d): %s" % (rc2, err2[-1500:]), err2[-6000:])
     if n < len(rows):
         ctx.note_inconclusive("Trace_EC evaluated %d of %d recorded lines (rc=%s)" % (n, len(rows), r.rc))
     for i in bad:
@@ -502,6 +504,7 @@ def run(ctx):
     rec_ops = {}
     for row in rows:
         rec_ops[row["op"]] = rec_ops.get(row["op"], 0) + 1
+    ev.cov["mismatches_by_key"] = dict(sorted(stats.get("keys", {}).items())[:40])
     ev.cov["curves"] = [{"name": t.name, "points": t.n, "kind": t.kind, "A=-3": t.a3} for t in tables]
     ev.cov["builds"] = builds
     ev.cov["rows_by_operation"] = per_op
